@@ -249,3 +249,50 @@ def c04f(ctx):
     for o in sub.obs:
         (ctx.ok if o.status == 'ok' else ctx.bad)('%s:%s' % (o.rule, o.construct), o.msg, o.where)
     ctx.stats['functions'] |= sub.stats['functions']
+
+
+@rule('C04.g', floor=3)
+def c04g(ctx):
+    """a tile produced by a concurrent creator is produced under the configuration of the request: the worker threads of the pool
+    run their tasks inside local_base_config(<configuration captured by the thread that created them>) -- the thread-local
+    configuration stack of a new thread is empty, base_config() called there yields the defaults (other image options, other
+    encoding of the stored tile)"""
+    A = 'mapproxy/util/async_.py:ThreadWorker.'
+    run, init = ctx.fn(A + 'run'), ctx.fn(A + '__init__')
+    withs = [it for w in run.walk() if isinstance(w, ast.With) for it in w.items if is_call(it.context_expr, 'local_base_config')]
+    ok = len(withs) == 1 and len(withs[0].context_expr.args) == 1
+    attr = None
+    if ok:
+        form = run.canon.expr(withs[0].context_expr.args[0])
+        ok = isinstance(form, ast.Attribute) and isinstance(form.value, ast.Name) and form.value.id == 'self'
+        attr = form.attr if ok else None
+    ctx.check(ok, 'ThreadWorker.run:uses-captured-config', 'the tasks run inside local_base_config(self.<attribute>)', run,
+              fail='the worker does not install a configuration captured outside of its own thread')
+    calls_own = [x for x in run.walk() if is_call(x, 'base_config')]
+    ctx.check(not calls_own, 'ThreadWorker.run:no-own-lookup', 'the worker thread itself never asks base_config()', run,
+              fail='base_config() is evaluated in the worker thread, whose configuration stack is empty: tasks run with the default configuration')
+    sets = [s for s in init.walk() if isinstance(s, ast.Assign) and any(isinstance(t, ast.Attribute) and t.attr == attr and unparse(t.value) == 'self'
+                                                                          for t in s.targets)] if attr else []
+    ok = len(sets) == 1 and is_call(init.canon.expr(sets[0].value), 'base_config')
+    ctx.check(ok, 'ThreadWorker.__init__:captures-config', 'the configuration is captured with base_config() by the creating thread (in __init__)', init,
+              fail='the creating thread does not capture its configuration for the worker')
+    # the task loop lies inside the with block
+    gets = [x for x in run.walk() if is_call(x, 'self.task_queue.get')]
+    ok = bool(gets) and bool(withs) and all(any(inside(x, w) for w in run.walk() if isinstance(w, ast.With) and withs[0] in w.items) for x in gets)
+    ctx.check(ok, 'ThreadWorker.run:tasks-inside-config', 'every task is fetched and run inside the with block', run)
+
+
+@rule('C04.h', floor=2)
+def c04h(ctx):
+    """shared rule, re-evaluated for this property: the resolution gate of a source carries its float tolerance and tests both axes
+    (C17.f) -- a tile requested alone and the same tile requested as part of a meta tile reach the gate with resolutions that
+    differ by float noise and must get the same answer"""
+    sub = run_property(ctx.repo, 'C17', ctx.tier, only={'C17.f'})
+    for er in sub.errors:
+        raise Undecided('shared rule %s: %s' % er)
+    for o in sub.obs:
+        if o.status == 'ok':
+            ctx.ok('%s:%s' % (o.rule, o.construct), o.msg, o.where)
+        else:
+            ctx.bad('%s:%s' % (o.rule, o.construct), o.msg, o.where)
+    ctx.stats['functions'] |= sub.stats['functions']
